@@ -1379,3 +1379,21 @@ def decision_table(R, key, body, expect, what="", local=0, ignore=None, matches=
     if ok:
         R.ok(key, "%s: all %d decisions match the frozen table" % (what or short(body.path), len(want)), [s.where() for _, s in have[:4]])
     return ok
+
+
+def origin_sites(body, op, limit=64):
+    """Call sites (block ids) a value originates from, following the *receiver* (first argument) of every call on the way
+    (`x.iter().map(f).next()` originates from whatever produced `x`). Site identity, not value equality."""
+    out, seen = set(), set()
+    work = list(body.call_sites(op))
+    by_bb = {c.bb: c for c in body.calls}
+    while work and len(seen) < limit:
+        bb = work.pop()
+        if bb in seen:
+            continue
+        seen.add(bb)
+        out.add(bb)
+        c = by_bb.get(bb)
+        if c is not None and c.args and "p" in c.args[0]:
+            work.extend(body.call_sites(c.args[0]))
+    return out
